@@ -444,18 +444,26 @@ Definition split_cex : option state :=
   fold_left (fun o l => match o with Some s => step (split_net 2) s l | None => None end) split_cex_labels
             (Some (split_init 2 [1; 2]%Z)).
 
+Definition split_cex_state : state :=
+  Eval vm_compute in match split_cex with Some s => s | None => split_init 2 [] end.
+
+Lemma split_cex_eq : split_cex = Some split_cex_state.
+Proof. vm_compute. reflexivity. Qed.
+
+Lemma split_cex_quiescent : quiescentb (split_net 2) split_cex_state = true.
+Proof. vm_compute. reflexivity. Qed.
+
 Theorem split_starter_abandoned_refuted :
   exists s, reach (split_net 2) (split_init 2 [1; 2]%Z) s /\ quiescent (split_net 2) s /\
             (forall j pr, j < 2 -> nth_error (s_procs s) (3 + j) = Some pr -> p_st pr <> PRun) /\   (* nobody reads any more *)
             In 4 (s_canc s) /\ ~ In 0 (s_canc s) /\                                               (* output 1 closed, user ctx live *)
             ~ all_done s.
 Proof.
-  destruct split_cex as [s|] eqn:E; [|vm_compute in E; discriminate].
-  exists s. split; [apply reach_apply_all with (ls := split_cex_labels); unfold split_cex in E; exact E|].
-  vm_compute in E. inv E.
-  split; [apply quiescentb_sound; vm_compute; reflexivity|].
-  split; [intros [|[|j]] pr Hj Hp; [| |lia]; cbn in Hp; inv Hp; discriminate|].
-  split; [cbn; auto|]. split; [cbn; intuition discriminate|].
+  exists split_cex_state.
+  split; [apply reach_apply_all with (ls := split_cex_labels); exact split_cex_eq|].
+  split; [apply quiescentb_sound; exact split_cex_quiescent|].
+  split; [intros [|[|j]] pr Hj Hp; [| |lia]; unfold split_cex_state in Hp; cbn in Hp; inv Hp; discriminate|].
+  split; [unfold split_cex_state; cbn; auto|]. split; [unfold split_cex_state; cbn; intuition discriminate|].
   intros [H _]. apply (H 1 _ eq_refl). reflexivity.
 Qed.
 
